@@ -219,6 +219,10 @@ type relayReqKey struct{}
 
 var hopNames = []string{"Connection", "Keep-Alive", "Proxy-Authenticate", "Proxy-Authorization", "Te", "Trailer", "Transfer-Encoding", "Upgrade", "Proxy-Connection"}
 
+// respAllowed: response fields the front server may add of its own: message framing, its Date
+// and Server signature, and the Content-Type net/http sniffs for a body that came without one.
+var respAllowed = map[string]bool{"Date": true, "Content-Length": true, "Transfer-Encoding": true, "Connection": true, "Trailer": true, "Server": true, "Content-Type": true}
+
 func isHop(name string, extra []string) bool {
 	for _, h := range hopNames {
 		if strings.EqualFold(h, name) {
@@ -1206,6 +1210,18 @@ func (r *relayRig) judge() {
 				}
 				c.Violate("C04/hop-by-hop-returned", sig, "request %d: hop-by-hop response header %s: %q reached the client (backend framing %s)", q.id, k, gv, sc.framing)
 			}
+		}
+		// ... and nothing the backend did not send and no rule adds: framing fields and what the front
+		// server itself signs its responses with excepted
+		var extra []string
+		for k := range resp.Header {
+			if _, ok := want[k]; !ok && !respAllowed[k] && !isHop(k, connNamed) {
+				extra = append(extra, k)
+			}
+		}
+		sort.Strings(extra)
+		for _, k := range extra {
+			c.Violate("C04/response-header-invented", k, "request %d: the client received header %s: %q, which the backend did not send and no rule adds", q.id, k, resp.Header.Values(k))
 		}
 		bodyless := q.method == "HEAD" || sc.status == 204 || sc.status == 304
 		if !bodyless && !bytes.Equal(resp.Body, sc.body) {
